@@ -1,6 +1,7 @@
 package props
 
 import (
+	"errors"
 	"fmt"
 	"html/template"
 	"reflect"
@@ -124,6 +125,16 @@ func c12MakeFunc(params []c12Param, variadic reflect.Type, result string, rec *c
 				continue
 			}
 			iv := v.Interface()
+			if i < len(params) && params[i].role == "map" && v.Kind() == reflect.Map && !v.IsNil() {
+				// helpers write defaults into their options: record what was received, then leave a mark in the map
+				// itself - the next call that omits its options must still receive an empty map of its own
+				cp := reflect.MakeMap(v.Type())
+				for _, k := range v.MapKeys() {
+					cp.SetMapIndex(k, v.MapIndex(k))
+				}
+				iv = cp.Interface()
+				v.SetMapIndex(reflect.ValueOf("touched-by-helper"), reflect.ValueOf(rec.calls))
+			}
 			rec.args = append(rec.args, iv)
 			if i < len(params) && params[i].role == "ctx" {
 				var hc hctx.HelperContext
@@ -264,7 +275,7 @@ func init() {
 	engine.Register(&engine.Prop{
 		ID: "C12",
 		Shards: func(th bool) []string {
-			var s []string
+			s := []string{"chain"}
 			for ti := range c12Tails {
 				for ri := range c12Results {
 					s = append(s, fmt.Sprintf("%d:%d", ti, ri))
@@ -273,7 +284,7 @@ func init() {
 			return s
 		},
 		Run:  c12Run,
-		Rule: "signatures built with reflect.FuncOf/MakeFunc (each is a recording helper): 0..2 (3 thorough) fixed parameters over {string,int,interface{},*struct,*other-struct} x tail {none, map[string]interface{}, hctx.Map, plush.HelperContext, hctx.HelperContext, an application-defined interface with the same method set, map+context in all typings, ...int, ...string, ...interface{}} x result shapes {(), (T), (T,nil), (T,err), (nil error), (error)}; calls with every argument list of length 0..3 (4 thorough) over {nil, \"s\", 1, hash literal, array literal, true, typed nil pointer and non-nil pointer from the context}, each argument wrapped in a logging identity helper, without a block, with a block and with an empty block, after an earlier completed helper call with more arguments. Reference binder: too many / non-assignable => error naming the callee, function not invoked; otherwise invoked exactly once with every supplied value unchanged (nil => zero value of the parameter type, also in the variadic tail), omitted trailing map => non-nil empty map, omitted helper context => context whose HasBlock()/Block() reflect the call's block; argument log duplicate-free, in source order (a prefix when binding fails); first result is the value, non-nil trailing error fails the render. Omitted ordinary parameters are unspecified (either error or zero-fill accepted, supplied positions still checked). Non-trivial: at least one argument or an auto-supplied parameter.",
+		Rule: "signatures built with reflect.FuncOf/MakeFunc (each is a recording helper): 0..2 (3 thorough) fixed parameters over {string,int,interface{},*struct,*other-struct} x tail {none, map[string]interface{}, hctx.Map, plush.HelperContext, hctx.HelperContext, an application-defined interface with the same method set, map+context in all typings, ...int, ...string, ...interface{}} x result shapes {(), (T), (T,nil), (T,err), (nil error), (error)}; calls with every argument list of length 0..3 (4 thorough) over {nil, \"s\", 1, hash literal, array literal, true, typed nil pointer and non-nil pointer from the context}, each argument wrapped in a logging identity helper, without a block, with a block and with an empty block, after an earlier completed helper call with more arguments. Reference binder: too many / non-assignable => error naming the callee, function not invoked; otherwise invoked exactly once with every supplied value unchanged (nil => zero value of the parameter type, also in the variadic tail), omitted trailing map => non-nil empty map of the call's own (every recording helper writes a mark into the map it received), omitted helper context => context whose HasBlock()/Block() reflect the call's block; argument log duplicate-free, in source order (a prefix when binding fails); first result is the value, non-nil trailing error fails the render. Omitted ordinary parameters are unspecified (either error or zero-fill accepted, supplied positions still checked). Chained calls: (T, error) functions and methods followed by nothing / field / method / nested path / index, in 8 statement forms, succeeding and failing: invoked once, arguments evaluated once, a failing call fails the render with the function's error wrapped and its value is never used. Non-trivial: at least one argument or an auto-supplied parameter.",
 		Bound: func(th bool) string {
 			if th {
 				return "<=3 fixed parameters, <=4 arguments"
@@ -284,6 +295,10 @@ func init() {
 }
 
 func c12Run(t *engine.T, shard string) {
+	if shard == "chain" {
+		c12Chain(t)
+		return
+	}
 	var ti, ri int
 	fmt.Sscanf(shard, "%d:%d", &ti, &ri)
 	tail := c12Tails[ti]
@@ -479,3 +494,90 @@ func c12One(t *engine.T, sig string, params []c12Param, variadic reflect.Type, r
 }
 
 var _ = template.HTML("")
+
+// c12Chain: the call's value is the function's first result and a non-nil trailing error fails the render,
+// also when a path (field, method, index) continues from the call, in every statement form.
+func c12Chain(t *engine.T) {
+	tails := []struct{ src, want string }{
+		{"", ""}, {".Name", "N"}, {".Hello()", "hello N"}, {".Kid.Name", "K"}, {".Tags[1]", "t1"}, {".Kids[0].Name", "K0"}, {".Self().Name", "N"}, {`.Attrs["k"]`, "v"},
+	}
+	forms := []struct{ name, pre, post string }{
+		{"emit", "A<%= ", " %>B"},
+		{"let", "A<% let r = ", " %><%= r %>B"},
+		{"condition", "A<%= if ((", `) != "zzz") { %>`}, // the path is parenthesised: an operator directly after a call path does not parse
+		{"argument", "A<%= idv(", ") %>B"},
+		{"concat", `A<%= "" + `, " %>B"},
+		{"array-element", "A<%= [", "][0] %>B"},
+		{"in-loop", "A<%= for (i) in [1] { %><%= ", " %><% } %>B"},
+		{"in-fn", "A<% let g = fn() { return ", " } %><%= g() %>B"},
+	}
+	for _, fails := range []bool{false, true} {
+		for _, callee := range []string{"find(w(0, \"x\"))", "holder.Find(w(0, \"x\"))", "find2(w(0, \"x\"), w(1, 2))"} {
+			for _, tl := range tails {
+				for _, fm := range forms {
+					if tl.src == "" && fm.name != "emit" && fm.name != "let" {
+						continue
+					}
+					expr := callee + tl.src
+					src := fm.pre + expr + fm.post
+					want := "A" + tl.want + "B"
+					if fm.name == "condition" {
+						src = fm.pre + expr + fm.post + tl.want + `<% } %>B`
+					}
+					if tl.src == "" {
+						want = "AB" // a struct pointer prints nothing
+					}
+					fails := fails
+					nargs := strings.Count(callee, "w(")
+					t.Case(fmt.Sprintf("chain fails=%v %s", fails, q(src)), true, func() (string, *engine.Fail) {
+						calls := 0
+						var log []int
+						p := &Person{Name: "N", Kid: &Person{Name: "K"}, Tags: []string{"t0", "t1"}, Kids: []Person{{Name: "K0"}}, Attrs: map[string]string{"k": "v"}}
+						find := func(s string) (*Person, error) {
+							calls++
+							if fails {
+								return p, ErrSentinel // a value is returned together with the error: it must not be used
+							}
+							return p, nil
+						}
+						ctx := plush.NewContext()
+						ctx.Set("find", find)
+						ctx.Set("find2", func(s string, n int) (*Person, error) { return find(s) })
+						ctx.Set("holder", c12Holder{find})
+						ctx.Set("w", func(i int, v interface{}) interface{} { log = append(log, i); return v })
+						ctx.Set("idv", func(v interface{}) interface{} { return v })
+						out, err := Render(src, ctx)
+						if f := Totality(out, err); f != nil {
+							return "", f
+						}
+						if calls != 1 {
+							return "", engine.Failf("invoked", "the function was invoked %d times, expected once", calls)
+						}
+						if len(log) != nargs {
+							return "", engine.Failf("arg-evaluation", "arguments evaluated %v, expected each of %d once", log, nargs)
+						}
+						if fails {
+							if err == nil {
+								return "", engine.Failf("error-ignored", "the function returned a non-nil error but Render succeeded with %q", out)
+							}
+							if !errors.Is(err, ErrSentinel) {
+								return "", engine.Failf("error-not-wrapped", "the render error does not wrap the function's error: %v", err)
+							}
+							return "error", nil
+						}
+						if err != nil || out != want {
+							return "", engine.Failf("mismatch", "expected %q, got %q / %v", want, out, err)
+						}
+						return "value", nil
+					})
+				}
+			}
+		}
+	}
+}
+
+type c12Holder struct {
+	f func(string) (*Person, error)
+}
+
+func (h c12Holder) Find(s string) (*Person, error) { return h.f(s) }
